@@ -77,6 +77,8 @@ PROPS = {
                                                     __import__("extras").run_child("sim_uncontended", REPO, seed, 80 if tier == "quick" else 800)]),
     "C14": dict(level="other", extra=lambda prog, S, tier, seed: [__import__("extras").run_child("csv_roundtrip", REPO, seed, 150 if tier == "quick" else 3000)]),
     "C15": dict(level="other", extra=lambda prog, S, tier, seed: [__import__("extras").run_child("generator_shape", REPO, seed, 40 if tier == "quick" else 600)]),
+    "C08": dict(level="other", scans=_scan_suspend, native_budget=30,
+                extra=lambda prog, S, tier, seed: [__import__("extras").run_children("config_sweep", REPO, seed, 96 if tier == "quick" else 1600, procs=12)]),
     "C12": dict(level="other", scans=_scan_suspend, native_budget=30),
     "C16": dict(scans=_scan_suspend),
     "C17": dict(scans=_scan_suspend),
@@ -140,6 +142,11 @@ def run(pid: str, tier: str, replay: str | None, t0: float) -> int:
     bad_lemmas = [(n, r) for n, r in lemma_res if r != "unsat"]
     bad_extra = []
     known_extra = []
+    crashed_parts = [e for e in extra_res if e.get("crash")]
+    if crashed_parts:
+        # a bounded part that did not run to the end decides nothing (never reported as a violation)
+        print(f"CHECKER-ERROR property={pid}: bounded part {crashed_parts[0]['name']} crashed: {crashed_parts[0].get('detail', '')[-300:]}")
+        return 3
     for e in extra_res:
         if e["ok"]:
             continue
